@@ -36,7 +36,7 @@ func unbondProfile() Profile {
 func slashProfile() Profile {
 	p := baseProfile()
 	p.Name = "slash"
-	p.Weights = map[string]int{KDelegate: 22, KUndelegate: 12, KRedelegate: 18, KClaim: 3, KBlock: 14, KSlashHook: 12, KSlash: 10, KUnbTime: 2, KJail: 1, KUnjail: 1, KDelete: 1, KCreate: 1, GRedelThenExit: 5, GMultiRedelSlash: 3}
+	p.Weights = map[string]int{KDelegate: 22, KUndelegate: 12, KRedelegate: 18, KClaim: 3, KBlock: 14, KSlashHook: 12, KSlash: 10, KUnbTime: 2, KJail: 1, KUnjail: 1, KDelete: 1, KCreate: 1, GRedelThenExit: 5, GMultiRedelSlash: 3, GPackBucket: 4}
 	p.FocusDelPct = 40
 	return p
 }
